@@ -1318,3 +1318,35 @@ Theorem C08_std_file_drive_divergence :
   /\ std_file_diverge_case (B "file://h.x/tmp/d") (B "/C:/x") (B "file://h.x/C:/x") (B "file:///C:/x") = true.
 Proof. exact std_file_drive_divergence. Qed.
 Print Assumptions C08_std_file_drive_divergence.
+
+(* 11.11 transfer: for ANY related pair of base records that is not opaque (file or not) and ANY reference meeting the
+   Standard-side premise on which the model's answer agrees with the Standard's (agree_good - the conclusion of every
+   class theorem of C01): the Standard succeeds keeping the front, and the model answers Overflow or a related record
+   whose API strings protocol, username, password, host, hostname, port are the base's.  So every present and future
+   class of the C01 equivalence gives containment of the crate's join at no extra cost *)
+Theorem C08_std_contain_transfer : forall dbg hp hpo hd shp shs b sb input,
+  related dbg shs b sb -> has_opaque_path sb = false -> std_contain_pre sb (spec_clean input) = true ->
+  agree_good dbg shs (join dbg hp hpo hd b input) (spec_basic_url_parse shp input (Some sb)) ->
+  exists su, spec_basic_url_parse shp input (Some sb) = BDone su /\ spec_same_front sb su /\ spec_base_ok su = true
+    /\ ((join dbg hp hpo hd b input = PErr Overflow /\ U32_MAX_P < nlen (get_href shs su))
+        \/ exists u', join dbg hp hpo hd b input = POk u' /\ related dbg shs u' su
+                      /\ option_map api_front (api_of_model dbg u') = option_map api_front (api_of_model dbg b)).
+Proof. exact std_contain_transfer. Qed.
+Print Assumptions C08_std_contain_transfer.
+
+(* 11.12 the drive-letter reference ("C|/y") with the crate: C01's class in_class_file_rel_drive (file base with the
+   EMPTY host, the path loop inside fp_ok): the Standard succeeds keeping the front and the crate's join answers Overflow
+   or a related record, a full_base pair again, with the base's front API strings *)
+Theorem C08_std_contain_file_drive_agree : forall dbg hp hpo hd shp shs, shs SEmpty = [] -> forall b sb input,
+  usv_list input -> related dbg shs b sb -> in_class_file_rel_drive sb input = true ->
+  exists su, spec_basic_url_parse shp input (Some sb) = BDone su /\ spec_same_front sb su
+    /\ ((join dbg hp hpo hd b input = PErr Overflow /\ U32_MAX_P < nlen (get_href shs su))
+        \/ exists u', join dbg hp hpo hd b input = POk u' /\ related dbg shs u' su /\ full_base dbg shs u' su
+                      /\ option_map api_front (api_of_model dbg u') = option_map api_front (api_of_model dbg b)).
+Proof. exact std_contain_file_drive_agree. Qed.
+Print Assumptions C08_std_contain_file_drive_agree.
+(* non-vacuity: against file:///tmp/d?q (both parsers) the references "C|/y", "d|", " C|\z?k#g" are in the class and meet
+   the premise of 11.11; both sides succeed with the serialization shown, the (empty) host is the base's *)
+Example C08_std_contain_file_drive_agree_inhabited :
+  std_fs_drive_agree_case (B "file:///tmp/d?q") [(B "C|/y", B "file:///C:/y"); (B "d|", B "file:///d:"); (B " C|\z?k#g", B "file:///C:/z?k#g")] = true.
+Proof. exact std_contain_file_drive_agree_inhabited. Qed.
